@@ -81,8 +81,16 @@ impl Args {
 /// Round-robin sharded ndjson writer: each *run* (a self-contained block of events that
 /// starts with a New/Reset event) goes to one shard, so the shards can be validated by
 /// independent TLC processes.
+/// bumped by every event (and by `tick()` in long event-less loops): the watchdog of bin/vh.rs reports
+/// a recorder that makes no progress for a long time as a hang of the library call in flight
+pub static PROGRESS: std::sync::atomic::AtomicU64 = std::sync::atomic::AtomicU64::new(0);
+pub fn tick() {
+    PROGRESS.fetch_add(1, std::sync::atomic::Ordering::Relaxed);
+}
+
 pub struct Shards {
-    files: Vec<std::io::BufWriter<std::fs::File>>,
+    // one write per event, so that the files hold whole lines at every moment
+    files: Vec<std::fs::File>,
     pub paths: Vec<String>,
     cur: usize,
     pub events: u64,
@@ -95,9 +103,7 @@ impl Shards {
         let mut paths = vec![];
         for i in 0..n {
             let p = format!("{prefix}.{i}.ndjson");
-            files.push(std::io::BufWriter::new(
-                std::fs::File::create(&p).unwrap_or_else(|e| panic!("create {p}: {e}")),
-            ));
+            files.push(std::fs::File::create(&p).unwrap_or_else(|e| panic!("create {p}: {e}")));
             paths.push(p);
         }
         Shards { files, paths, cur: 0, events: 0, runs: 0 }
@@ -120,10 +126,11 @@ impl Shards {
             }
         }
         denull(&mut v);
-        let f = &mut self.files[self.cur];
-        serde_json::to_writer(&mut *f, &v).unwrap();
-        f.write_all(b"\n").unwrap();
+        let mut line = serde_json::to_vec(&v).unwrap();
+        line.push(b'\n');
+        self.files[self.cur].write_all(&line).unwrap();
         self.events += 1;
+        tick();
     }
     /// like finish, but every shard ends with an End event (per-file totals are judged there)
     pub fn finish_with_end(mut self) -> (u64, u64) {
